@@ -394,3 +394,270 @@ Qed.
 (* any sufficient fuel gives the answer of the default fuel *)
 Corollary parse_item_default f bs : parse_item f bs <> OutOfFuel -> parse_item f bs = parse_one bs.
 Proof. intros H. symmetry. apply parse_item_fuel_indep; [exact H|apply parse_one_no_oof]. Qed.
+
+(* ------------------------------------------------------------------ induction principle for items *)
+
+Definition item_ind2 (P : item -> Prop)
+  (Huint : forall n, P (IUint n)) (Hnint : forall n, P (INint n))
+  (Hbytes : forall b, P (IBytes b)) (Hbc : forall cs, P (IBytesChunked cs))
+  (Htext : forall b, P (IText b)) (Htc : forall cs, P (ITextChunked cs))
+  (Harr : forall d xs, Forall P xs -> P (IArray d xs))
+  (Hmap : forall d kvs, Forall (fun kv => P (fst kv) /\ P (snd kv)) kvs -> P (IMap d kvs))
+  (Htag : forall t x, P x -> P (ITag t x))
+  (Hsimple : forall n, P (ISimple n)) (Hfloat : forall w v, P (IFloat w v)) : forall it, P it :=
+  fix go (it : item) : P it :=
+    match it with
+    | IUint n => Huint n
+    | INint n => Hnint n
+    | IBytes b => Hbytes b
+    | IBytesChunked cs => Hbc cs
+    | IText b => Htext b
+    | ITextChunked cs => Htc cs
+    | IArray d xs =>
+        Harr d xs ((fix gl (l : list item) : Forall P l :=
+                      match l with
+                      | [] => Forall_nil _
+                      | x :: t => Forall_cons x (go x) (gl t)
+                      end) xs)
+    | IMap d kvs =>
+        Hmap d kvs ((fix gl (l : list (item * item)) : Forall (fun kv => P (fst kv) /\ P (snd kv)) l :=
+                       match l with
+                       | [] => Forall_nil _
+                       | kv :: t => Forall_cons kv (conj (go (fst kv)) (go (snd kv))) (gl t)
+                       end) kvs)
+    | ITag t x => Htag t x (go x)
+    | ISimple n => Hsimple n
+    | IFloat w v => Hfloat w v
+    end.
+
+(* ------------------------------------------------------------------ printer round trip *)
+
+Definition starts_ok (bs : bytes) : Prop := exists b t, bs = b :: t /\ b <> 255.
+
+Lemma encode_head_starts m n rest : m <= 7 -> starts_ok (encode_head m n ++ rest).
+Proof.
+  intros Hm. unfold encode_head, starts_ok.
+  destruct (n <? 24) eqn:E1; [eexists; eexists; split; [reflexivity|lia]|].
+  destruct (n <? 256); [eexists; eexists; split; [reflexivity|lia]|].
+  destruct (n <? 65536); [eexists; eexists; split; [reflexivity|lia]|].
+  destruct (n <? 4294967296); eexists; eexists; (split; [reflexivity|lia]).
+Qed.
+
+Lemma encode_item_starts it : starts_ok (encode_item it).
+Proof.
+  destruct it as [n|n|b|cs|b|cs|d xs|d kvs|t x|n|w v]; cbn [encode_item];
+    try (apply encode_head_starts; lia);
+    try (rewrite <- (app_nil_r (encode_head _ _)); apply encode_head_starts; lia);
+    try (eexists; eexists; split; [reflexivity|lia]).
+  - destruct d; [apply encode_head_starts; lia|eexists; eexists; split; [reflexivity|lia]].
+  - destruct d; [apply encode_head_starts; lia|eexists; eexists; split; [reflexivity|lia]].
+  - destruct w; cbn [fwidth_bytes encode_head_w]; eexists; eexists; (split; [reflexivity|lia]).
+Qed.
+
+Lemma starts_ok_ne bs : starts_ok bs -> bs <> [].
+Proof. intros [b [t [-> _]]]. discriminate. Qed.
+
+Lemma encode_item_ne it : encode_item it <> [].
+Proof. apply starts_ok_ne, encode_item_starts. Qed.
+
+Lemma flat_map_length_ge {A} (enc : A -> bytes) xs :
+  Forall (fun x => enc x <> []) xs -> (length xs <= length (flat_map enc xs))%nat.
+Proof.
+  induction 1 as [|x xs Hx _ IH]; cbn [flat_map length]; [lia|].
+  rewrite app_length. destruct (enc x); [congruence|]. cbn [length]. lia.
+Qed.
+
+Lemma parse_n_rt {A} (p : parser A) (enc : A -> bytes) xs rest :
+  Forall (fun x => forall rest, p (enc x ++ rest) = Ok (x, rest)) xs ->
+  parse_n p (length xs) (flat_map enc xs ++ rest) = Ok (xs, rest).
+Proof.
+  induction 1 as [|x xs Hx _ IH]; cbn [length parse_n flat_map app]; [reflexivity|].
+  rewrite <- app_assoc, Hx. cbn [bind]. rewrite IH. reflexivity.
+Qed.
+
+Lemma parse_until_break_step {A} (p : parser A) k b t : b <> 255 ->
+  parse_until_break p (S k) (b :: t) =
+  (let* '(x, r) := p (b :: t) in let* '(xs, r') := parse_until_break p k r in Ok (x :: xs, r')).
+Proof. intros H. cbn [parse_until_break]. destruct (b =? 255) eqn:E; [lia|reflexivity]. Qed.
+
+Lemma parse_until_break_nil {A} (p : parser A) k rest : parse_until_break p k (255 :: rest) = Ok ([], rest).
+Proof. destruct k; reflexivity. Qed.
+
+Definition rt_elem {A} (p : parser A) (enc : A -> bytes) (x : A) : Prop :=
+  (forall rest, p (enc x ++ rest) = Ok (x, rest)) /\ starts_ok (enc x).
+
+Lemma parse_until_break_rt_k {A} (p : parser A) (enc : A -> bytes) xs rest :
+  Forall (rt_elem p enc) xs ->
+  forall k, (length xs <= k)%nat -> parse_until_break p k (flat_map enc xs ++ 255 :: rest) = Ok (xs, rest).
+Proof.
+  induction 1 as [|x xs [Hx [b [t [E Hb]]]] _ IH]; intros k Hk.
+  - cbn [flat_map app]. apply parse_until_break_nil.
+  - destruct k as [|k]; [cbn [length] in Hk; lia|]. cbn [flat_map]. rewrite <- app_assoc.
+    specialize (Hx (flat_map enc xs ++ 255 :: rest)). rewrite E in *. cbn [app] in *.
+    rewrite parse_until_break_step by exact Hb. rewrite Hx. cbn [bind].
+    rewrite IH by (cbn [length] in Hk; lia). reflexivity.
+Qed.
+
+Lemma parse_until_break_rt {A} (p : parser A) (enc : A -> bytes) xs rest :
+  Forall (rt_elem p enc) xs ->
+  parse_until_break p (length (flat_map enc xs ++ 255 :: rest)) (flat_map enc xs ++ 255 :: rest) = Ok (xs, rest).
+Proof.
+  intros H. apply parse_until_break_rt_k; [exact H|]. rewrite app_length.
+  assert (length xs <= length (flat_map enc xs))%nat; [|lia].
+  apply flat_map_length_ge. eapply Forall_impl; [|exact H]. intros x [_ Hs]. apply starts_ok_ne, Hs.
+Qed.
+
+Lemma parse_chunk_rt m c rest : len c < two64 ->
+  parse_chunk m ((encode_head m (len c) ++ c) ++ rest) = Ok (c, rest).
+Proof.
+  intros Hl. unfold parse_chunk. rewrite <- app_assoc, decode_encode_head by exact Hl.
+  rewrite N.eqb_refl. apply take_bytes_app. reflexivity.
+Qed.
+
+Lemma chunks_rt m cs : m <= 7 -> forallb chunk_ok cs = true ->
+  Forall (rt_elem (parse_chunk m) (fun c => encode_head m (len c) ++ c)) cs.
+Proof.
+  intros Hm H. rewrite forallb_forall in H. apply Forall_forall. intros c Hin. apply H in Hin.
+  unfold chunk_ok in Hin. apply andb_true_iff in Hin as [_ Hl]. apply N.ltb_lt in Hl.
+  split; [intros rest; apply parse_chunk_rt, Hl|apply encode_head_starts, Hm].
+Qed.
+
+Lemma parse_body_head p bs m a r :
+  decode_head bs = Some (m, a, r) -> parse_body p bs = parse_after p (hd 0 bs) m a r.
+Proof. destruct bs as [|b0 t]; [discriminate|]. unfold parse_body. intros ->. reflexivity. Qed.
+
+Lemma depth_in x xs : In x xs ->
+  (item_depth x <= fold_right (fun x acc => Nat.max (item_depth x) acc) O xs)%nat.
+Proof.
+  induction xs as [|y ys IH]; [intros []|]. cbn [fold_right]. intros [->|Hin]; [lia|].
+  specialize (IH Hin). lia.
+Qed.
+
+Lemma depth_in_pair kv kvs : In kv kvs ->
+  (Nat.max (item_depth (fst kv)) (item_depth (snd kv)) <=
+   fold_right (fun kv acc => match kv with (k, v) => Nat.max (Nat.max (item_depth k) (item_depth v)) acc end) O kvs)%nat.
+Proof.
+  induction kvs as [|[k v] ys IH]; [intros []|]. cbn [fold_right]. intros [<-|Hin]; [cbn [fst snd]; lia|].
+  specialize (IH Hin). lia.
+Qed.
+
+Lemma decode_float w v rest : item_ok (IFloat w v) = true ->
+  decode_head (encode_head_w 7 v (fwidth_bytes w) ++ rest) = Some (7, Arg v, rest).
+Proof.
+  intros H. destruct w; cbn [item_ok] in H; apply N.ltb_lt in H; unfold two64 in H;
+    cbn [fwidth_bytes encode_head_w app decode_head].
+  - destruct (initial_byte 7 25 ltac:(lia)) as [-> ->].
+    change (25 <? 24) with false. change (25 =? 24) with false. change (25 =? 25) with true. cbv iota.
+    rewrite split_at_app by apply be_length. rewrite unbe_be by (change (256 ^ N.of_nat 2) with 65536; lia).
+    do 3 f_equal.
+  - destruct (initial_byte 7 26 ltac:(lia)) as [-> ->].
+    change (26 <? 24) with false. change (26 =? 24) with false. change (26 =? 25) with false.
+    change (26 =? 26) with true. cbv iota.
+    rewrite split_at_app by apply be_length. rewrite unbe_be by (change (256 ^ N.of_nat 4) with 4294967296; lia).
+    do 3 f_equal.
+  - destruct (initial_byte 7 27 ltac:(lia)) as [-> ->].
+    change (27 <? 24) with false. change (27 =? 24) with false. change (27 =? 25) with false.
+    change (27 =? 26) with false. change (27 =? 27) with true. cbv iota.
+    rewrite split_at_app by apply be_length.
+    rewrite unbe_be by (change (256 ^ N.of_nat 8) with 18446744073709551616; lia).
+    do 3 f_equal.
+Qed.
+
+Lemma guard_true {A} (enc : A -> bytes) xs rest :
+  Forall (fun x => enc x <> []) xs -> (len xs <=? len (flat_map enc xs ++ rest)) = true.
+Proof.
+  intros H. apply flat_map_length_ge in H. unfold len. rewrite app_length. lia.
+Qed.
+
+(* parse (print it ++ rest) = (it, rest) for every encodable item, with fuel >= nesting depth *)
+Theorem parse_item_encode : forall it, item_ok it = true ->
+  forall f rest, (item_depth it <= f)%nat -> parse_item f (encode_item it ++ rest) = Ok (it, rest).
+Proof.
+  induction it as [n|n|b|cs|b|cs|d xs IH|d kvs IH|t x IH|n|w v] using item_ind2; intros Hok f rest Hd;
+    (destruct f as [|f]; [cbn [item_depth] in Hd; lia|]); cbn [parse_item];
+    cbn [item_ok] in Hok; cbn [encode_item].
+  - apply N.ltb_lt in Hok. rewrite (parse_body_head _ _ _ _ _ (decode_encode_head 0 n rest Hok)). reflexivity.
+  - apply N.ltb_lt in Hok. rewrite (parse_body_head _ _ _ _ _ (decode_encode_head 1 n rest Hok)). reflexivity.
+  - unfold chunk_ok in Hok. apply andb_true_iff in Hok as [_ Hl]. apply N.ltb_lt in Hl.
+    rewrite <- app_assoc. rewrite (parse_body_head _ _ _ _ _ (decode_encode_head 2 _ _ Hl)).
+    unfold parse_after. cbn [major_of]. rewrite take_bytes_app by reflexivity. reflexivity.
+  - cbn [app]. rewrite <- app_assoc. cbn [app].
+    rewrite (parse_body_head _ (95 :: _) 2 Indef _ eq_refl). unfold parse_after. cbn [major_of].
+    unfold encode_chunks. rewrite parse_until_break_rt by (apply chunks_rt; [lia|exact Hok]). reflexivity.
+  - unfold chunk_ok in Hok. apply andb_true_iff in Hok as [_ Hl]. apply N.ltb_lt in Hl.
+    rewrite <- app_assoc. rewrite (parse_body_head _ _ _ _ _ (decode_encode_head 3 _ _ Hl)).
+    unfold parse_after. cbn [major_of]. rewrite take_bytes_app by reflexivity. reflexivity.
+  - cbn [app]. rewrite <- app_assoc. cbn [app].
+    rewrite (parse_body_head _ (127 :: _) 3 Indef _ eq_refl). unfold parse_after. cbn [major_of].
+    unfold encode_chunks. rewrite parse_until_break_rt by (apply chunks_rt; [lia|exact Hok]). reflexivity.
+  - (* array *)
+    apply andb_true_iff in Hok as [Hl Hall]. apply N.ltb_lt in Hl. cbn [item_depth] in Hd.
+    assert (HF : Forall (rt_elem (parse_item f) encode_item) xs).
+    { rewrite forallb_forall in Hall. rewrite Forall_forall in IH. apply Forall_forall. intros x Hin. split.
+      - intros rest'. apply IH; [exact Hin|apply Hall, Hin|]. pose proof (depth_in x xs Hin). lia.
+      - apply encode_item_starts. }
+    destruct d.
+    + rewrite <- app_assoc. rewrite (parse_body_head _ _ _ _ _ (decode_encode_head 4 _ _ Hl)).
+      unfold parse_after. cbn [major_of].
+      rewrite guard_true by (apply Forall_forall; intros; apply encode_item_ne).
+      unfold len at 1. rewrite Nat2N.id.
+      rewrite parse_n_rt by (eapply Forall_impl; [|exact HF]; intros x [Hx _]; exact Hx). reflexivity.
+    + cbn [app]. rewrite <- app_assoc. cbn [app].
+      rewrite (parse_body_head _ (159 :: _) 4 Indef _ eq_refl). unfold parse_after. cbn [major_of].
+      rewrite parse_until_break_rt by exact HF. reflexivity.
+  - (* map *)
+    apply andb_true_iff in Hok as [Hl Hall]. apply N.ltb_lt in Hl. cbn [item_depth] in Hd.
+    change (flat_map _ kvs) with (flat_map encode_pair kvs).
+    assert (HF : Forall (rt_elem (parse_pair (parse_item f)) encode_pair) kvs).
+    { rewrite forallb_forall in Hall. rewrite Forall_forall in IH. apply Forall_forall. intros [k v] Hin.
+      pose proof (depth_in_pair _ _ Hin) as Hdp. cbn [fst snd] in Hdp.
+      specialize (Hall _ Hin). cbn beta iota in Hall. apply andb_true_iff in Hall as [Hk Hv].
+      destruct (IH _ Hin) as [IHk IHv]. cbn [fst snd] in IHk, IHv. split.
+      - intros rest'. unfold parse_pair, encode_pair. rewrite <- app_assoc.
+        rewrite IHk by (try exact Hk; lia). cbn [bind]. rewrite IHv by (try exact Hv; lia). reflexivity.
+      - unfold encode_pair. destruct (encode_item_starts k) as [b [t [E Hb]]]. rewrite E.
+        exists b, (t ++ encode_item v). split; [reflexivity|exact Hb]. }
+    destruct d.
+    + rewrite <- app_assoc. rewrite (parse_body_head _ _ _ _ _ (decode_encode_head 5 _ _ Hl)).
+      unfold parse_after. cbn [major_of].
+      rewrite guard_true by (eapply Forall_impl; [|exact HF]; intros x [_ Hs]; apply starts_ok_ne, Hs).
+      unfold len at 1. rewrite Nat2N.id.
+      rewrite parse_n_rt by (eapply Forall_impl; [|exact HF]; intros x [Hx _]; exact Hx). reflexivity.
+    + cbn [app]. rewrite <- app_assoc. cbn [app].
+      rewrite (parse_body_head _ (191 :: _) 5 Indef _ eq_refl). unfold parse_after. cbn [major_of].
+      rewrite parse_until_break_rt by exact HF. reflexivity.
+  - (* tag *)
+    apply andb_true_iff in Hok as [Hl Hx]. apply N.ltb_lt in Hl. cbn [item_depth] in Hd.
+    rewrite <- app_assoc. rewrite (parse_body_head _ _ _ _ _ (decode_encode_head 6 _ _ Hl)).
+    unfold parse_after. cbn [major_of]. rewrite IH by (try exact Hx; lia). reflexivity.
+  - (* simple *)
+    assert (Hl : n < two64) by (unfold two64; lia).
+    rewrite (parse_body_head _ _ _ _ _ (decode_encode_head 7 _ _ Hl)).
+    unfold parse_after. cbn [major_of]. cbv zeta. unfold encode_head.
+    destruct (n <? 24) eqn:E1.
+    + cbn [app hd]. destruct (initial_byte 7 n ltac:(lia)) as [_ ->]. rewrite E1. reflexivity.
+    + destruct (n <? 256) eqn:E2; [|lia]. cbn [app hd].
+      change ((7 * 32 + 24) mod 32) with 24. change (24 <? 24) with false. change (24 =? 24) with true. cbv iota.
+      destruct (n <? 32) eqn:E3; [lia|reflexivity].
+  - (* float *)
+    assert (Hf : item_ok (IFloat w v) = true) by exact Hok.
+    rewrite (parse_body_head _ _ _ _ _ (decode_float w v rest Hf)). destruct w; reflexivity.
+Qed.
+
+Theorem parse_one_encode it rest : item_ok it = true -> parse_one (encode_item it ++ rest) = Ok (it, rest).
+Proof.
+  intros Hok. pose proof (parse_item_encode it Hok (item_depth it) rest (Nat.le_refl _)) as H.
+  rewrite <- H. symmetry. apply parse_item_default. rewrite H. discriminate.
+Qed.
+
+Corollary parse_exact_encode it : item_ok it = true -> parse_exact (encode_item it) = Ok it.
+Proof.
+  intros Hok. unfold parse_exact. rewrite <- (app_nil_r (encode_item it)), parse_one_encode by exact Hok. reflexivity.
+Qed.
+
+Corollary item_wf_encode it : item_ok it = true -> item_wf (encode_item it) = true.
+Proof. intros Hok. unfold item_wf. rewrite parse_exact_encode by exact Hok. reflexivity. Qed.
+
+Corollary skip_item_encode it rest : item_ok it = true ->
+  skip_item (encode_item it ++ rest) = Ok (encode_item it, rest).
+Proof. intros Hok. apply skip_item_parse. exists it. split; [apply parse_one_encode, Hok|reflexivity]. Qed.
